@@ -19,7 +19,7 @@ import AdaptaVerif.Check.Vpsc
 namespace Driver.C01
 open Driver AdaptaVerif.Num AdaptaVerif.Model.Vpsc
 open AdaptaVerif.Check.Vpsc (C checkPost firstBad feasible Verdict sumW)
-open AdaptaVerif.Model.VpscStatic (SSt partitionOf invOkStatic)
+open AdaptaVerif.Model.VpscStatic (SSt partitionOf invOkStatic quiescentOk)
 
 inductive Op where
   | add (j : Nat)
@@ -158,8 +158,14 @@ def checkCase (c : Case) : CaseResult := Id.run do
         else
           stats := bumpStats stats ("impl." ++ o.status) 1
           if !isInc then
-            -- the static solver is only driven on inequality DAGs (always feasible): it must not throw
-            verdict := worse verdict (.diverge s!"op {t}: static solver threw ({o.status}) on an acyclic inequality system")
+            -- the static solver is only driven on inequality DAGs (always feasible).  Its way of reporting a
+            -- constraint unsatisfiable is the exception: on a CERTIFIED feasible inequality system that is the
+            -- property's "flagged iff infeasible" failing on a concrete input
+            let certFeasible := !anyEq && (match feasible n cs with | .feasible _ => true | _ => false)
+            if certFeasible && o.status == "threw-unsatisfied" then
+              verdict := worse verdict (.specfail s!"op {t}: static solver reported a constraint unsatisfiable (threw UnsatisfiedConstraint) but the system is feasible (potentials certified)")
+            else
+              verdict := worse verdict (.diverge s!"op {t}: static solver threw ({o.status}) on an acyclic inequality system")
         -- ---------- Tie: the static solver's model
         if !isInc && t == 0 && staticTie then
           let s0 := SSt.init vs (allCons.extract 0 curM)
@@ -185,6 +191,12 @@ def checkCase (c : Case) : CaseResult := Id.run do
             if guarded && o.status == "ret" then
               verdict := worse verdict (.diverge s!"op {t}: static model throws (exit scan) but the implementation returned")
           | .ok mpos mret =>
+            if isSolve then
+              let q := quiescentOk s1.st LAGRANGIAN_TOLERANCE
+              if !q.1 then stats := bumpStats stats "smodel.solveNotStationary" 1
+              if !q.2.1 then stats := bumpStats stats "smodel.solveNotExactlyFeasible" 1
+              if !q.2.2 then stats := bumpStats stats "smodel.solveReturnedWithSplittable" 1
+              if q.1 && q.2.1 && q.2.2 then stats := bumpStats stats "smodel.solveQuiescentAtReturn" 1
             if !(invOkStatic s1.st) then
               stats := bumpStats stats "smodel.invariantBroken" 1
               verdict := worse verdict (.diverge s!"op {t}: block invariant does not hold in the static model state after the call")
